@@ -1,6 +1,7 @@
 (* C16 — search-space definitions are validated and membership is decided correctly.  Statements only. *)
 From Coq Require Import Sorting.Sorted Sorting.Permutation.
 From VZ Require Import Base.Prelude Model.Space Proofs.SpaceP.
+From VZ Require Model.FactoryIR Gen.FactorySrc Proofs.FactorySrcP.
 
 (* one parameter: contains(value) is True exactly for values inside the domain (in_domain: number between the bounds for
    DOUBLE, integral number between the bounds for INTEGER, number equal to a feasible value for DISCRETE, string or
@@ -90,3 +91,11 @@ Example C16_nonvacuous :
   exists p, factory [120%N] (Some (RInt 1, RInt 5)) [] = Ok p /\ pc_contains p (RFloat (XF 2)) = Accept /\
             pc_contains p (RFloat XPInf) = Refuse /\ pc_contains p (RFloat (XF (5 # 2))) = Refuse /\ pc_contains p (RBool true) = Accept.
 Proof. eexists. repeat split; reflexivity. Qed.
+
+(* THE FACTORY IS THE SOURCE.  Gen/FactorySrc.v is regenerated at every run from parameter_config.py: ParameterConfig.factory as a
+   decision tree (the order of its tests and what each outcome is), with the bodies of _validate_bounds,
+   _get_feasible_points_and_bounds and _get_categories pinned.  Its meaning is the function `factory` the theorems above are about. *)
+Theorem C16_source_factory_is_the_model : forall name bounds feasible,
+  FactoryIR.factory_of FactorySrc.src_factory FactorySrc.src_helpers name bounds feasible = factory name bounds feasible.
+Proof. exact FactorySrcP.src_factory_is_factory. Qed.
+Print Assumptions C16_source_factory_is_the_model.
